@@ -179,8 +179,17 @@ impl KademliaRoutingTable {
     }
 
     fn add_node(&mut self, node: NodeInfo) -> Result<()> {
+        // The local node is never part of its own routing table
+        if node.id == self.node_id {
+            return Ok(());
+        }
         let bucket_index = self.get_bucket_index(&node.id);
-        self.buckets[bucket_index].add_node(node)
+        let bucket = &mut self.buckets[bucket_index];
+        // A peer is listed at most once: re-adding a known peer refreshes its entry
+        if let Some(pos) = bucket.nodes.iter().position(|n| n.id == node.id) {
+            bucket.nodes.remove(pos);
+        }
+        bucket.add_node(node)
     }
 
     fn remove_node(&mut self, node_id: &NodeId) {
@@ -195,30 +204,25 @@ impl KademliaRoutingTable {
 
         let mut candidates: Vec<(NodeInfo, [u8; 32])> = Vec::with_capacity(count * 2);
 
-        // Collect from target bucket first, then expand outwards
-        for offset in 0..256 {
-            // Check bucket above target (or at target when offset == 0)
-            let bucket_above = target_bucket.saturating_add(offset).min(255);
-            for node in self.buckets[bucket_above].get_nodes() {
+        // Every node in a bucket at or above the target bucket shares the key's prefix up to
+        // the target bit, so all of them are closer than any node in a lower bucket. Within
+        // that group the distances interleave, so the whole group is collected.
+        for bucket in &self.buckets[target_bucket..] {
+            for node in bucket.get_nodes() {
                 let distance = node.id.0.distance(key);
                 candidates.push((node.clone(), distance));
             }
+        }
 
-            // Check bucket below target (skip when offset == 0 to avoid duplicate)
-            if offset > 0 {
-                let bucket_below = target_bucket.saturating_sub(offset);
-                // Only check if it's a different bucket (saturating_sub may equal target_bucket)
-                if bucket_below != bucket_above {
-                    for node in self.buckets[bucket_below].get_nodes() {
-                        let distance = node.id.0.distance(key);
-                        candidates.push((node.clone(), distance));
-                    }
-                }
-            }
-
-            // Early exit: if we have enough candidates, we can stop expanding
-            if candidates.len() >= count * CANDIDATE_EXPANSION_FACTOR {
+        // Below the target each bucket is strictly farther than the previous one, so the walk
+        // can stop as soon as enough candidates were collected.
+        for bucket in self.buckets[..target_bucket].iter().rev() {
+            if candidates.len() >= count {
                 break;
+            }
+            for node in bucket.get_nodes() {
+                let distance = node.id.0.distance(key);
+                candidates.push((node.clone(), distance));
             }
         }
 
@@ -485,10 +489,6 @@ const MAX_PENDING_DHT_REQUESTS: usize = 10_000;
 
 /// Number of K-buckets in Kademlia routing table (one per bit in 256-bit key space)
 const KADEMLIA_BUCKET_COUNT: usize = 256;
-
-/// Candidate expansion factor for find_closest_nodes optimization
-/// Collect 2x requested count before early exit to ensure good selection
-const CANDIDATE_EXPANSION_FACTOR: usize = 2;
 
 /// DHT routing table maintenance interval in seconds
 /// Periodic refresh of buckets and eviction of stale nodes
